@@ -213,8 +213,19 @@ def proof_tree_generator_bfs(rules_dict: RulesDict, root: int) -> Iterator[Node]
         start: tuple(sorted(ends)) for start, ends in rules_dict.items()
     }
 
+    def _one_rule_per_label(tree: Node) -> bool:
+        # sibling subtrees are built independently, keep only the trees in which
+        # every expanded occurence of a label uses the same rule.
+        rules: Dict[int, Tuple[int, ...]] = {}
+        for node in tree.nodes():
+            if node.children:
+                children = tuple(sorted(child.label for child in node.children))
+                if rules.setdefault(node.label, children) != children:
+                    return False
+        return True
+
     if root in sorted_rules_dict:
-        yield from _bfs_helper(root, frozenset())
+        yield from filter(_one_rule_per_label, _bfs_helper(root, frozenset()))
 
 
 def proof_tree_generator_dfs(
